@@ -221,11 +221,20 @@ def instants(variant):
             (d.year, d.month, d.day, d.hour, d.minute, d.second, 250)]
 
 
-N_TRACKS = 7    # 0..5: six observations, triple i with instant (i + j) mod 6;  6: a single observation;  7: empty (GPX only)
+N_TRACKS = 7    # 0..5: six observations, triple i with instant (i + j) mod 6;  6: a single observation;  7: empty (GPX only);  8: 40 observations
 
 
 def track_rows(srid, variant, j):
     tr, ins = triples(srid, variant), instants(variant)
+    if j == 8:          # a track that is not tiny: 40 observations, one second apart (a writer that works in blocks ...)
+        import datetime
+        t0 = datetime.datetime(*ins[0])
+        rows = []
+        for i in range(40):
+            x, y, z = tr[i % 6]
+            ti = t0 + datetime.timedelta(seconds=i)
+            rows.append(((x + 0.001 * i, y - 0.001 * i, z), (ti.year, ti.month, ti.day, ti.hour, ti.minute, ti.second)))
+        return rows
     if j == 7:
         return []
     if j == 6:
@@ -1120,7 +1129,7 @@ def _run_shard(shard, ctx):
         first = True
         for layout in alpha.order(v, layouts()):
             for h in (0, 1):
-                for j in range(N_TRACKS):
+                for j in list(range(N_TRACKS)) + [8]:
                     case = {"op": "csv", "variant": v, "srid": shard["srid"], "layout": list(layout),
                             "sep": shard["sep"], "h": h, "tf": shard["tf"], "track": j}
                     ctx.case(tuple(layout) != IDENT)
@@ -1130,7 +1139,7 @@ def _run_shard(shard, ctx):
                         first = False
     elif k == "gpx":
         for srid in SRIDS:
-            for j in range(N_TRACKS + 1):
+            for j in list(range(N_TRACKS + 1)) + [8]:
                 for P in TF_ALL + [ISO_NOZ]:
                     for R in GPX_COMPAT:
                         case = {"op": "gpx", "variant": v, "srid": srid, "track": j, "P": P, "R": R}
